@@ -713,6 +713,19 @@ impl<'a, R: RealNumberInternalTrait> Interpreter<'a, R> {
     }
 }
 
+/// Verification hooks (guard: `--cfg ruschm_verif`): read-only views of private loader state.
+#[cfg(ruschm_verif)]
+impl<'a, R: RealNumberInternalTrait> Interpreter<'a, R> {
+    /// Libraries currently marked as "import in progress".
+    pub fn verif_in_progress(&self) -> Vec<LibraryName> {
+        self.imported_library.iter().cloned().collect()
+    }
+    /// Whether the import-declaration part of the program has ended.
+    pub fn verif_import_end(&self) -> bool {
+        self.import_end
+    }
+}
+
 impl<'a, R: RealNumberInternalTrait> Default for Interpreter<'a, R> {
     fn default() -> Self {
         Self::with_environment(Rc::new(Environment::new()))
